@@ -1,0 +1,31 @@
+//go:build verif
+// +build verif
+
+package leveldbstorage
+
+import "sync/atomic"
+
+// VerifFaultFunc is consulted before every write (Put, Delete, Batch) of a Storage. kind is "put", "delete" or
+// "batch"; n is the number of records. A non-nil error is returned to the caller instead of performing the write.
+type VerifFaultFunc func(st *Storage, kind string, n int) error
+
+var verifFaultController atomic.Value // VerifFaultFunc
+
+// VerifSetFaultController installs f (nil removes it).
+func VerifSetFaultController(f VerifFaultFunc) {
+	verifFaultController.Store(&f)
+}
+
+func verifFault(st *Storage, kind string, n int) error {
+	i := verifFaultController.Load()
+	if i == nil {
+		return nil
+	}
+
+	f := *(i.(*VerifFaultFunc)) //nolint:forcetypeassert //...
+	if f == nil {
+		return nil
+	}
+
+	return f(st, kind, n)
+}
